@@ -264,6 +264,18 @@ def install(it):
 
     def b_map(it, a, k):
         f = a[0]
+        if len(a) == 2 and isinstance(a[1], SymSeq) and isinstance(f, Builtin) and f.name in ("int", "str"):
+            seq = a[1]
+            import itertools
+
+            if f.name == "int":
+                # int() of each element: ValueError as soon as one element is not an integer literal
+                if it.ctx.choose(2, "map-int-outcome") == 1:
+                    it.throw("ValueError", "invalid literal for int() with base 10")
+                arr = z3.Const(f"ints!{next(strmodel._split_ctr)}", z3.ArraySort(z3.IntSort(), z3.IntSort()))
+                return SymSeq("int", arr, seq.length, kind="list")
+            arr = z3.Const(f"strs!{next(strmodel._split_ctr)}", z3.ArraySort(z3.IntSort(), z3.StringSort()))
+            return SymSeq("str", arr, seq.length, kind="list")
         seqs = [it.iterate(x) for x in a[1:]]
         return [it.call(f, list(xs), {}) for xs in zip(*seqs)]
 
